@@ -12,6 +12,7 @@ import Prov.Props.C07T1
 import Prov.Props.C07T2
 import Prov.Props.C07T3
 import Prov.Props.C07T4
+import Prov.Props.C07W
 import Prov.Lemmas.Text
 import Prov.Lemmas.NsMgr
 import Std.Data.String.ToInt
